@@ -127,6 +127,8 @@ func runC13(r *Run) {
 	}
 	fixed := []string{`x + y`, `len(xs) + o.p`, `m["k"]`, `m["zz"]`, `if(b, s, e)`, `[o, o2][1].q`, `get(mz, 9)`, `nope + 1`, `xs[7]`, `string(m)`, `x +`, `5 % z`,
 		`[s: x]`, `len([s: x, "z": 0])`, `isset([s: x], "a")`, `string([s: x])`, `[x: s, y: e]`, `[xs, es]`, `{a: xs, b: s}`, `[s, e, s]`, `union(xs, es)`, `[o.q: o.p]`,
+		`lazyif(b, x, y) + 1`, `lazyif(x > 0, s, e)`, `both(b, x > 0)`, `lazyif(b, tr(x), tr(y))`, `lazyif(f, 1, lazyif(b, x, y))`, `[lazyif(b, s, e), trs(s)]`,
+		`abs(y)`, `y - floor(y)`, `round(y) + y`, `ceil(y) * 2 + y`, `[y, abs(y), y]`, `floor(m["k"]) + m["k"]`, `abs(o.p) + o.p`, `ceil(xs[0]) + xs[0]`, `round(mn[1] == "one" ? y : x) + y`, `-y + abs(y)`,
 		`tr(x) + tr(y)`, `if(b, tr(x), tr(y))`, `[trs(s): tr(x)]`, `get(mb, x)`, `xs[x]`, `ss[y + 2.5]`, `m[s]`, `string(nest)`, `[mb, mz]`, `[t0: x]`}
 	emitted := 0
 	for i := 0; i < h; i++ {
@@ -154,6 +156,14 @@ func runC13(r *Run) {
 		}
 		tenvs := []*types.Env{typeEnvOf(vars), typeEnvOf(vars), typeEnvOf(vars)}
 		venvs := []*val.Env{valEnvOf(sets[0]), valEnvOf(sets[1]), valEnvOf(sets[2])}
+		snap := func() string {
+			var b strings.Builder
+			for k := range sets {
+				b.WriteString(string(venvSx(vars, sets[k])))
+			}
+			return b.String()
+		}
+		before := snap()
 		var callables []yae.Callable
 		var csrc []string
 		var cback []int
@@ -225,6 +235,9 @@ func runC13(r *Run) {
 					r.Case(L(A(tag), hs.Sx(), tenvSx(vars), venvSx(vars, sets[vi]), oraclesSx(csrc[ci], sets[vi]), Runes(csrc[ci])), got.Sx())
 				}
 			}
+		}
+		if after := snap(); after != before {
+			r.Violate("environment-values-modified", strings.Join(hist, "; "), "the values bound in the environment objects differ after the history (evaluation wrote into its input)")
 		}
 		r.Nontrivial(strings.Join(hist, ";"))
 		if i < 2 {
